@@ -28,7 +28,7 @@ using sim::Result;
 using sim::Rng;
 
 enum { C_PART = 0, C_QLEN, C_RECYCLE, C_ARENA };
-enum { P_LRU_SET = 0, P_LRU_MAP, P_SPLAY_SET, P_SPLAY_MULTI, P_SPLAY_SET_TRACKED, P_SPLAY_MULTI_TRACKED, P_LRU_SET_HEAP, P_LRU_MAP_HEAP, P_N };
+enum { P_LRU_SET = 0, P_LRU_MAP, P_SPLAY_SET, P_SPLAY_MULTI, P_SPLAY_SET_TRACKED, P_SPLAY_MULTI_TRACKED, P_LRU_SET_HEAP, P_LRU_MAP_HEAP, P_SPLAY_SET_DIR, P_SPLAY_MULTI_DIR, P_N };
 enum { L_PUT = 0, L_TOUCH, L_TOUCH_IF, L_GET, L_GET_TOUCH, L_ERASE, L_ERASE_IF, L_EXISTS, L_POP, L_CLEAR, L_PUT_OWN_VALUE, L_ERASE_BY_OWN_VALUE, L_N };
 enum { S_INSERT = 0, S_ERASE, S_EXISTS, S_FIND, S_CLEAR, S_ERASE_NODE, S_KEEP_NODE, S_ERASE_KEPT, S_N };
 const uint32_t RECYCLE[] = {0, 300, 700, 1000};
@@ -40,14 +40,14 @@ void generate(Rng& r, Workload& w, int tier) {
     int n = int(r.range(1, tier ? 200 : 50));
     // a splay tree has no depth bound: a long monotone history (here: one key inserted many times into a
     // multiset) makes a spine of that length, which the traversals and clear() must cope with
-    if ((part == P_SPLAY_MULTI || part == P_SPLAY_MULTI_TRACKED) && r.chance(1, 6)) {
+    if ((part == P_SPLAY_MULTI || part == P_SPLAY_MULTI_TRACKED || part == P_SPLAY_MULTI_DIR) && r.chance(1, 6)) {
         int run = int(r.range(65, tier ? 300 : 100));
         int64_t k = int64_t(r.below(KEYS));
         for (int i = 0; i < run; ++i) w.ops.push_back({S_INSERT, k, 0});
     }
     for (int i = 0; i < n; ++i) {
         int64_t code;
-        const bool lru = part <= P_LRU_MAP || part >= P_LRU_SET_HEAP;
+        const bool lru = part <= P_LRU_MAP || part == P_LRU_SET_HEAP || part == P_LRU_MAP_HEAP;
         if (lru) code = r.chance(1, 3) ? L_PUT : int64_t(r.below(L_N));
         else code = r.chance(2, 5) ? S_INSERT : int64_t(r.below(S_N));
         if ((code == L_CLEAR && lru) || (code == S_CLEAR && !lru))
@@ -203,12 +203,29 @@ template <> int mkkey<int>(int k) { return k; }
 template <> sim::Tracked mkkey<sim::Tracked>(int k) { return sim::Tracked(k, k); }
 int keyval(const int& k) { return k; }
 int keyval(const sim::Tracked& k) { return k.k(); }
+// a comparator whose order is run-time state (differs from a default-constructed one): the tree must use the
+// object it was given, SplayTree(Compare cmp, Allocator alloc)
+struct DirCmp {
+    bool desc = false;
+    DirCmp() = default;
+    explicit DirCmp(bool d) : desc(d) {}
+    bool operator()(int a, int b) const { return desc ? a > b : a < b; }
+};
+template <class Cmp> Cmp make_cmp(bool) { return Cmp(); }
+template <> DirCmp make_cmp<DirCmp>(bool desc) { return DirCmp(desc); }
 
 template <class K, class Cmp, bool Dup>
 void run_splay(const Workload& w, Result& res) {
     using Tree = tlx::SplayTree<K, Cmp, Dup, sim::Alloc<K> >;
     const bool tracked = !std::is_same<K, int>::value;
-    auto tree = std::make_unique<Tree>();
+    // the model holds tr(key): with the descending run-time comparator the key order is mirrored
+    const bool dir = std::is_same<Cmp, DirCmp>::value;
+    const bool desc = dir && sim::modn(sim::cfg_at(w, C_QLEN), 2) == 1;
+    const int arena = dir && sim::modn(sim::cfg_at(w, C_ARENA), 2) == 1 ? 1 : 0;
+    auto tr = [desc](int x) { return desc ? KEYS - 1 - x : x; };
+    if (desc) res.probe("splay_descending_runtime_comparator");
+    if (arena) res.probe("splay_with_allocator_instance");
+    auto tree = dir ? std::make_unique<Tree>(make_cmp<Cmp>(desc), sim::Alloc<K>(arena)) : std::make_unique<Tree>();
     std::multiset<int> model;
     static const char* names[] = {"insert", "erase", "exists", "find", "clear", "erase_node", "keep_node", "erase_kept_node"};
     int step = 0;
@@ -220,20 +237,21 @@ void run_splay(const Workload& w, Result& res) {
         int code = int(sim::modn(op[0], S_N));
         int k = int(sim::modn(op.size() > 1 ? op[1] : 0, KEYS));
         std::string at = std::string(names[code]) + "(" + std::to_string(k) + ") at step " + std::to_string(step) + (Dup ? " [multiset]" : " [set]");
-        const bool had = model.count(k) > 0;
+        const int mk = tr(k);
+        const bool had = model.count(mk) > 0;
         switch (code) {
         case S_INSERT: {
             bool rv = tree->insert(mkkey<K>(k));
             bool expect = Dup || !had;
             if (rv != expect) res.fail("splay_return", "insert returned " + std::to_string(rv) + ", " + at);
-            if (expect) model.insert(k);
+            if (expect) model.insert(mk);
             break;
         }
         case S_ERASE: {
             if (k == kept_key) kept = nullptr;   // (which of the equal nodes goes is the tree's business)
             bool rv = tree->erase(mkkey<K>(k));
             if (rv != had) res.fail("splay_return", "erase returned " + std::to_string(rv) + ", " + at);
-            if (had) model.erase(model.find(k));
+            if (had) model.erase(model.find(mk));
             break;
         }
         case S_EXISTS: {
@@ -251,8 +269,8 @@ void run_splay(const Workload& w, Result& res) {
                 if (had) { if (got != k) res.fail("splay_return", "find returned key " + std::to_string(got) + ", " + at); }
                 else {
                     // the node reached last: the predecessor or the successor of k
-                    auto it = model.lower_bound(k);
-                    bool okn = (it != model.end() && *it == got) || (it != model.begin() && *std::prev(it) == got);
+                    auto it = model.lower_bound(mk);
+                    bool okn = (it != model.end() && *it == tr(got)) || (it != model.begin() && *std::prev(it) == tr(got));
                     if (!okn) res.fail("splay_return", "find for an absent key returned " + std::to_string(got) + ", not a neighbour, " + at);
                 }
             }
@@ -270,7 +288,7 @@ void run_splay(const Workload& w, Result& res) {
             if (kept != nullptr) {
                 bool rv = tree->erase(kept);
                 if (!rv) res.fail("splay_return", "erase(node) of a node obtained earlier returned false, " + at);
-                model.erase(model.find(kept_key));
+                model.erase(model.find(tr(kept_key)));
                 kept = nullptr;
                 res.probe("splay_erase_node_kept_over_inserts");
             }
@@ -281,7 +299,7 @@ void run_splay(const Workload& w, Result& res) {
             if (n != nullptr && had && keyval(n->key) == k) {
                 bool rv = tree->erase(n);
                 if (!rv) res.fail("splay_return", "erase(node) returned false, " + at);
-                model.erase(model.find(k));
+                model.erase(model.find(mk));
             }
             break;
         }
@@ -290,12 +308,12 @@ void run_splay(const Workload& w, Result& res) {
             res.fail("splay_size", "size()=" + std::to_string(tree->size()) + " model " + std::to_string(model.size()) + ", " + at);
         if (res.ok) {
             std::vector<int> seq;
-            tree->traverse_preorder([&seq](const K& key) { seq.push_back(keyval(key)); });
+            tree->traverse_preorder([&seq, &tr](const K& key) { seq.push_back(tr(keyval(key))); });
             std::vector<int> exp(model.begin(), model.end());
             if (seq != exp) res.fail("splay_order", "in-order key sequence differs from the model (" + std::to_string(seq.size()) + " vs " + std::to_string(exp.size()) + " keys), " + at);
             // the same traversal with a function object that keeps what it saw in its own state
-            struct Collector { mutable std::vector<int> seen; void operator()(const K& key) const { seen.push_back(keyval(key)); } };
-            Collector col;
+            struct Collector { bool desc; mutable std::vector<int> seen; void operator()(const K& key) const { int x = keyval(key); seen.push_back(desc ? KEYS - 1 - x : x); } };
+            Collector col{desc, {}};
             tree->traverse_preorder(col);
             if (res.ok && col.seen != exp) res.fail("splay_order", "a collecting function object passed to the traversal saw " + std::to_string(col.seen.size()) + " keys, the model has " + std::to_string(exp.size()) + ", " + at);
         }
@@ -328,12 +346,14 @@ void execute(const Workload& w, Result& res) {
     case P_LRU_MAP_HEAP: res.probe("lru_map_heap_keys_and_values"); run_lru<true, HKey, HKey>(w, res); break;
     case P_SPLAY_SET: res.probe("splay_set"); run_splay<int, std::less<int>, false>(w, res); break;
     case P_SPLAY_MULTI: res.probe("splay_multiset"); run_splay<int, std::less<int>, true>(w, res); break;
+    case P_SPLAY_SET_DIR: res.probe("splay_set_runtime_cmp"); run_splay<int, DirCmp, false>(w, res); break;
+    case P_SPLAY_MULTI_DIR: res.probe("splay_multiset_runtime_cmp"); run_splay<int, DirCmp, true>(w, res); break;
     case P_SPLAY_SET_TRACKED: res.probe("splay_set_heap_keys"); run_splay<sim::Tracked, TLess, false>(w, res); break;
     default: res.probe("splay_multiset_heap_keys"); run_splay<sim::Tracked, TLess, true>(w, res); break;
     }
     // "frees every node exactly once" is said of the splay tree; for the LRU caches a node that is never returned
     // is counted, not judged (double / foreign release and writes to released nodes are judged everywhere)
-    const bool is_lru = part <= P_LRU_MAP || part >= P_LRU_SET_HEAP;
+    const bool is_lru = part <= P_LRU_MAP || part == P_LRU_SET_HEAP || part == P_LRU_MAP_HEAP;
     sim::alloc_env().finish(!is_lru);
     if (is_lru && sim::alloc_env().leaked_blocks()) res.probe("beyond_c17.lru_node_not_returned", sim::alloc_env().leaked_blocks());
     for (auto& e : sim::alloc_env().errors()) res.fail("alloc_ledger", e);
